@@ -561,6 +561,39 @@ fn build_write_script(rng: &mut Rng, w: u64) -> Vec<WStep> {
         s.push(WStep::FlushFile);
         return s;
     }
+    if w % 16 == 10 || w % 16 == 9 {
+        // family F (version 3 for w = 10 mod 16, version 4 for w = 9 mod 16): the small
+        // streams before the marker use up one MiniFAT sector exactly (128 / 1024 mini
+        // sectors); the next small stream makes the MiniFAT chain grow by a sector, which
+        // rewrites the header's MiniFAT sector count, under the sweep
+        let (n_full, rest) = if w % 2 == 0 { (2, 128) } else { (16, 1024) };
+        for k in 0..n_full {
+            s.push(WStep::OpenNew { slot: 0, path: format!("/p{k:02}") });
+            for l in [1024usize, 1024, 1024, 960] {
+                s.push(WStep::Write { slot: 0, len: l });
+            }
+            s.push(WStep::CloseHandle { slot: 0 });
+        }
+        s.push(WStep::OpenNew { slot: 0, path: "/q".into() });
+        s.push(WStep::Write { slot: 0, len: rest });
+        s.push(WStep::CloseHandle { slot: 0 });
+        s.push(WStep::Marker);
+        s.push(WStep::OpenNew { slot: 0, path: "/last".into() });
+        s.push(WStep::Write { slot: 0, len: 100 });
+        s.push(WStep::FlushHandle { slot: 0 });
+        s.push(WStep::CloseHandle { slot: 0 });
+        s.push(WStep::OpenNew { slot: 0, path: "/last2".into() });
+        s.push(WStep::Write { slot: 0, len: 70 });
+        s.push(WStep::FlushHandle { slot: 0 });
+        s.push(WStep::CloseHandle { slot: 0 });
+        s.push(WStep::Remove("/p00".into()));
+        s.push(WStep::OpenNew { slot: 0, path: "/r".into() });
+        s.push(WStep::Write { slot: 0, len: 200 });
+        s.push(WStep::FlushHandle { slot: 0 });
+        s.push(WStep::CloseHandle { slot: 0 });
+        s.push(WStep::FlushFile);
+        return s;
+    }
     if w % 8 == 5 {
         // family C (version 4): the directory grows by a sector at the 33rd entry (counting
         // the root), which rewrites the header's directory-sector count; the sweep covers
@@ -770,6 +803,10 @@ struct WState {
     /// streams whose last flush returned Ok and read back right then, with the accepted
     /// bytes; an entry goes when anything writes to, resizes, re-creates or removes the stream
     durable: Vec<(String, Vec<u8>)>,
+    /// the workload started from nothing or from a file the library wrote itself (one that
+    /// strict mode accepts): what the library stores is then expected to stay acceptable
+    /// to its own strict mode
+    own_file: bool,
 }
 
 fn w_step_name(s: &WStep) -> &'static str {
@@ -994,6 +1031,21 @@ fn w_exec(st: &mut WState, step: &WStep, rep: &mut Report) -> Result<Result<(), 
                         };
                         if reopened.is_some() && !st.unrecovered && !st.torn {
                             rep.count("ok_flush_stored_file_opens");
+                            // ... and not only by the lenient reader: every write that failed has been
+                            // repeated, so the file the library wrote holds no field that a failed
+                            // write left behind (a count in the header that no longer matches its
+                            // chain, say), and the library's own strict mode accepts it
+                            if st.own_file {
+                                if std::env::var_os("CFBMON_TRACE").is_some() {
+                                    let b = st.shared.bytes();
+                                    eprintln!("    strict probe: header minifat start {} count {}", u32::from_le_bytes([b[60], b[61], b[62], b[63]]), u32::from_le_bytes([b[64], b[65], b[66], b[67]]));
+                                }
+                                let (f3, _s3) = MonFile::new(st.shared.bytes());
+                                if let Err(e) = CompoundFile::open_strict(f3) {
+                                    return Err((format!("flush Ok | the stored file is rejected by strict open | {}", crate::guard::strip_numbers(&e.to_string())), format!("{}: every failed call had succeeded on retry and Stream::flush returned Ok, but the stored bytes are rejected by open_strict: {e}", h.path)));
+                                }
+                                rep.count("ok_flush_stored_file_opens_strict");
+                            }
                             // metadata calls that returned Ok are in the stored file as well
                             if let Some(cf2) = reopened.as_ref() {
                                 for (p, v) in &st.state_set {
@@ -1276,6 +1328,10 @@ fn w_run_observed(script: &[WStep], version: Version, faults: Vec<Fault>, rep: &
     }
     .map_err(|e| ("create | failed without faults".to_string(), format!("{e}")))?;
     let base = shared.seq();
+    let own_file = match start {
+        None => true,
+        Some(b) => CompoundFile::open_strict(std::io::Cursor::new(b.to_vec())).is_ok(),
+    };
     let torn = faults.iter().any(|f| f.partial);
     let no_set_len_retry = faults.first().map(|f| (f.k % 2 == 1) != FLIP_SET_LEN_POLICY.with(|c| c.get())).unwrap_or(false);
     shared.arm(faults);
@@ -1285,10 +1341,12 @@ fn w_run_observed(script: &[WStep], version: Version, faults: Vec<Fault>, rep: &
     if let Some(n) = fault_free_calls {
         shared.set_step_budget(50 * n + 20_000);
     }
-    let mut st = WState { shared: shared.clone(), cf, handles: Vec::new(), api: 0, writes: 0, structure_tainted: false, unrecovered: false, torn, state_set: Vec::new(), durable: Vec::new() };
+    let mut st = WState { shared: shared.clone(), cf, handles: Vec::new(), api: 0, writes: 0, structure_tainted: false, unrecovered: false, torn, state_set: Vec::new(), durable: Vec::new(), own_file };
     let kind_counts = |sh: &Shared| {
+        // (numbered as the fault plan numbers them: the harness's own paused read-backs
+        // do not count)
         let g = sh.lock();
-        [g.c.writes, g.c.seeks, g.c.flushes]
+        g.c.faultable
     };
     let at_arm = kind_counts(&shared);
     let mut marker = [0u64; 3];
@@ -1314,6 +1372,10 @@ fn w_run_observed(script: &[WStep], version: Version, faults: Vec<Fault>, rep: &
                     break;
                 }
                 Err(_) => {
+                    if std::env::var_os("CFBMON_TRACE").is_some() {
+                        let b = shared.bytes();
+                        eprintln!("    after the failure: header minifat count {} file len {}", u32::from_le_bytes([b[64], b[65], b[66], b[67]]), b.len());
+                    }
                     rep.count(&format!("api_errors.{}", w_step_name(step)));
                     // a failed set_len is not repeated in the runs with an odd fault position
                     let give_up = matches!(step, WStep::SetLen { .. }) && no_set_len_retry;
@@ -1355,6 +1417,11 @@ fn w_run_observed(script: &[WStep], version: Version, faults: Vec<Fault>, rep: &
         shared.pause_faults(false);
     }
     let fired = !shared.hits().is_empty();
+    if std::env::var_os("CFBMON_TRACE").is_some() {
+        for h in shared.hits() {
+            eprintln!("    fault hit: underlying call #{} kind {} during api call #{}", h.seq, crate::backend::kind_name(h.kind), h.api);
+        }
+    }
     if shared.over_budget() {
         return Err(("no bounded progress | underlying calls exceed 50x the fault-free run".to_string(), format!("the faulty run made {} underlying calls; the fault-free run makes {}", shared.seq() - base, fault_free_calls.unwrap_or(0))));
     }
